@@ -147,8 +147,20 @@ def t_deep(acc, n):
                     acc.viol(name, 'answer differs from existence of an isomorphism of the reachable parts', inst, repro=rp, observed=got, expected=exp)
 
 
+def t_heap(acc, n, k, shard, nshard):
+    """Thin family (wave 6): the n-state heap DFA against every DFA that differs from it in one row (spaces.heap_pairs);
+    CPython order and the canonical order, no deviations."""
+    for idx, (s1, s2) in spaces.heap_pairs(n, k):
+        if idx % nshard == shard:
+            check_pair(acc, s1, s2, 0, 's', 'r')
+            if idx % 7 == 0:
+                check_pair(acc, s2, s1, 0, 's', 'r')
+
+
 def plan(tier, seed):
     tasks = [('plain', 'mc.props.c20:t_deep', {'n': 1500}), ('plain', 'mc.props.c20:t_deep', {'n': 17})]
+    tasks += [('instr', 'mc.props.c20:t_heap', {'n': 12, 'k': 2, 'shard': s_, 'nshard': 16}) for s_ in range(16)]
+    tasks += [('instr', 'mc.props.c20:t_heap', {'n': 11, 'k': 3, 'shard': s_, 'nshard': 16}) for s_ in range(16) if tier != 'quick' or s_ % 4 == 0]
 
     def pairs(n1, n2, k, depth, nshard, stride=1, sch2='r', logging=False):
         for s in range(nshard):
@@ -197,4 +209,4 @@ def plan(tier, seed):
         pairs(2, 2, 1, 1, 1, sch2=sch)
     return {'tasks': tasks, 'bounds': {'spaces': bounds, 'step_budget': BUDGET}, 'exhaustive': True,
             'rule': 'ordered pairs of labelled DFAs over the same alphabet (second operand renamed r0.. or with identical names) x both routines x one execution under CPython order + every execution with <= d set-order deviations, loop-iteration budget as termination oracle; non-trivial = equivalent-but-not-isomorphic pairs and isomorphic pairs with unreachable states',
-            'assumptions': ['termination = result within {} loop iterations (largest count seen on a terminating run is in maxima)'.format(BUDGET), 'set order = global order per execution (DESIGN 3.4)', 'state names are distinct str objects with equal content (as parsers produce them)', 'small pair spaces also with GambaTools.enable_logging = True and through two live DFA objects rewritten in place', 'wave 5: the counter modulo 1500 (one simple path through all states, longer than the recursion limit) against renamed copies and non-isomorphic siblings; expected answers by construction']}
+            'assumptions': ['termination = result within {} loop iterations (largest count seen on a terminating run is in maxima)'.format(BUDGET), 'set order = global order per execution (DESIGN 3.4)', 'state names are distinct str objects with equal content (as parsers produce them)', 'small pair spaces also with GambaTools.enable_logging = True and through two live DFA objects rewritten in place', 'wave 5: the counter modulo 1500 (one simple path through all states, longer than the recursion limit) against renamed copies and non-isomorphic siblings; expected answers by construction', 'wave 6: the 12-state two-letter (11-state three-letter) heap DFA against all one-row variants: state numbers with two digits']}
